@@ -103,7 +103,7 @@ prop("C03", NEC + "Clauses: each of the 27 build/semantic message kinds has an e
       {"rule": "FRAME", "filter": files(*FRONT_FRAME), "floor": 212},
       {"rule": "TRAVERSE", "filter": tag("errors", "analyze", "build"), "floor": 73}, {"rule": "EQ-COMPLETE", "floor": 43},
       {"rule": "SCOPE-ORDER", "filter": tag("typescope", "semantic"), "floor": 5}, {"rule": "NOT-A-KIND", "floor": 3},
-      {"rule": "KEYWORD-BOUNDARY", "floor": 3}, {"rule": "EMPTY-RANGE-GUARD", "filter": tag("diagstart"), "floor": 1}])
+      {"rule": "KEYWORD-BOUNDARY", "filter": nottag("charvalue"), "floor": 3}, {"rule": "EMPTY-RANGE-GUARD", "filter": tag("diagstart"), "floor": 1}])
 
 prop("C04", NEC + "Clauses: shape of the precedence-climbing parser (levels, loops, operand parsers, else binding) "
      "and agreement of parser levels with the operator classification used by the type checker (T5); raw token "
@@ -129,7 +129,7 @@ prop("C06", NEC + "Clauses: alt(..) order vs. prefix relation of static lexemes 
      "incremental lexer skip the same separator class (RELEX-WINDOW lexinput); lexeme bodies are matched by unbounded repetitions and "
      "token payloads are input text, not assembled strings (LEX-MUNCH).",
      [{"rule": "TABLES", "filter": tag("T1", "T3"), "floor": 37}, {"rule": "EOF-ONCE", "floor": 3},
-      {"rule": "TOKEN-RANGE-SOURCE", "floor": 11}, {"rule": "KEYWORD-BOUNDARY", "floor": 3}, {"rule": "COMMENT-LEX", "floor": 5},
+      {"rule": "TOKEN-RANGE-SOURCE", "floor": 11}, {"rule": "KEYWORD-BOUNDARY", "floor": 4}, {"rule": "COMMENT-LEX", "floor": 5},
       {"rule": "RELEX-WINDOW", "filter": tag("lexinput"), "floor": 2}, {"rule": "LEX-MUNCH", "floor": 15}])
 
 prop("C07", NEC + "Clauses: a token relocated to a new range relocates its lexical errors too (TOKEN-ERRORS); the "
@@ -244,7 +244,7 @@ prop("C17", NEC + "Clause: the procedure's token range is made absolute with the
      "lexed again (T2 look-ahead table and its use) and the re-lexed window is spliced at the right offsets (RELEX-WINDOW)." + PARSER_REF,
      [{"rule": "FRAME", "filter": files("fold.rs"), "floor": 2}, {"rule": "POS-CONV", "filter": feat("fold"), "floor": 6},
       {"rule": "ONE-PER-ITEM", "floor": 3}, {"rule": "SLICE-FIRST", "floor": 20}, {"rule": "BSEARCH-MONO", "floor": 1},
-      {"rule": "KEYWORD-BOUNDARY", "floor": 3}, {"rule": "TEXT-SYNC", "filter": tag("batch"), "floor": 4},
+      {"rule": "KEYWORD-BOUNDARY", "filter": nottag("charvalue"), "floor": 3}, {"rule": "TEXT-SYNC", "filter": tag("batch"), "floor": 4},
       {"rule": "UPDATE-ORDER", "floor": 3}, {"rule": "FRAME", "filter": files("parser.rs", "utility.rs"), "floor": 3},
       {"rule": "TEXT-SYNC", "filter": tag("utf16"), "floor": 1}, {"rule": "TABLES", "filter": tag("T2"), "floor": 18},
       {"rule": "RELEX-WINDOW", "floor": 8}])
